@@ -31,6 +31,11 @@ ASSUMPTIONS = {
 }
 
 
+LEAN_NAMES = {"cnt_store": "cnt_store", "cnt_const": "cnt_const", "cnt_range": "cnt_range", "cnt_pos": "cnt_pos", "cnt_all": "cnt_all / cnt_none",
+              "cnt_congr": "cnt_congr", "sum_store": "sum_store", "sum_const": "sum_const'", "sum_le_quota": "sum_le_quota",
+              "sum_ge_quota": "sum_ge_quota", "sum_eq_quota": "sum_eq_quota", "inj_surj": "inj_surj"}
+
+
 def load_known():
     p = os.path.join(HERE, "KNOWN_FINDINGS.json")
     if not os.path.exists(p):
@@ -70,6 +75,12 @@ def run_check(prop, tier, seed, repo_root, write_ledger, t0):
     known_hits = []
     undecided = []
     broken = []
+
+    # ---------------------------------------------------------------- lemma schemas: Lean + Mathlib, in parallel with the proof part
+    meta0 = prun.property_meta(prop)
+    lean_jobs = []
+    for lf in meta0.get("lean_files", []):
+        lean_jobs.append((lf, time.time(), subprocess.Popen(["lean", os.path.join(HERE, lf)], stdout=subprocess.PIPE, stderr=subprocess.STDOUT, text=True)))
 
     # ---------------------------------------------------------------- proof part
     reports, allob, res, solver_wall = prun.run_property(prop, repo_root=repo_root, timeout=timeout)
@@ -197,6 +208,26 @@ def run_check(prop, tier, seed, repo_root, write_ledger, t0):
         if k is not None and kw.get("still_fails") and k not in known_hits:
             known_hits.append(k)
 
+    # ---------------------------------------------------------------- lemma files
+    lean_results = []
+    for lf, t_l, pr in lean_jobs:
+        try:
+            out, _ = pr.communicate(timeout=1800)
+        except subprocess.TimeoutExpired:
+            pr.kill()
+            out = "timeout"
+        with open(os.path.join(HERE, lf)) as f:
+            src = f.read()
+        import re as _re
+        code = _re.sub(r"/-.*?-/", "", src, flags=_re.S)
+        code = "\n".join(l.split("--")[0] for l in code.splitlines())
+        admits = [w for w in ("sorry", "admit", "axiom ", "native_decide") if w in code]
+        ok = pr.returncode == 0 and "error" not in (out or "") and not admits
+        lean_results.append(dict(file=lf, accepted=ok, seconds=round(time.time() - t_l, 1), theorems=len(_re.findall(r"^theorem ", src, flags=_re.M)),
+                                 admits=admits, output=(out or "")[-600:]))
+        if not ok:
+            broken.append("lemma file %s not accepted by Lean: %s" % (lf, (out or "")[-300:]))
+
     # ---------------------------------------------------------------- evidence
     n_ob = sum(v["instances"] for oid, v in ids.items() if not v["canary"] and known_for("obligation", oid) is None)
     n_dis = sum(v["discharged"] for oid, v in ids.items() if not v["canary"] and known_for("obligation", oid) is None)
@@ -213,7 +244,10 @@ def run_check(prop, tier, seed, repo_root, write_ledger, t0):
         checker_cmd="python3-vt -m pyvc.check %s --tier %s  (VC generator pyvc over %s; back ends: %s)" % (
             prop, tier, repo_root, "z3 5.1 CLI per obligation, cvc5 1.0.3 for string queries left unknown"),
         trusted_base=["pyvc engine (this repository, differential self-test in setup_cmd)", "z3 5.1.0", "cvc5 1.0.3"]
-        + ["assumed contract: " + e for e in externs] + ["lemma schema: " + l for l in lemmas]
+        + ["assumed contract: " + e for e in externs]
+        + ["lemma schema: " + l + (" (statement machine-checked: Pyvc.%s in lemmas/Counting.lean, Lean 4 + Mathlib; the instantiation of the "
+                                   "schema by pyvc is trusted)" % LEAN_NAMES[l] if l in LEAN_NAMES and lean_results and all(r["accepted"] for r in lean_results) else "")
+           for l in lemmas]
         + meta.get("trusted", []),
         obligation_ids=len([1 for v in ids.values() if not v["canary"]]),
         functions_under_contract=funcs,
@@ -228,6 +262,8 @@ def run_check(prop, tier, seed, repo_root, write_ledger, t0):
         undecided=undecided,
         not_applicable_clauses=meta.get("not_applicable", []),
     )
+    if lean_results:
+        cov["lemma_files"] = lean_results
     if bounded:
         cov["evaluations"] = bounded.get("evaluations", 0)
         cov["distinct_nontrivial"] = bounded.get("distinct_nontrivial", 0)
